@@ -56,5 +56,6 @@ Diagnose ==
         LET e == Trace[l] IN
         Emit([n |-> l, inp |-> e.inp, run |-> e.run, verdict |-> LineVerdict(e), details |-> Details(e),
               shape |-> Shape(e.doc), form |-> e.args.form,
-              drift |-> IF LineVerdict(e) = "bad_trace" THEN FALSE ELSE NameDrift(e.doc, e.structs)])
+              drift |-> IF LineVerdict(e) = "bad_trace" THEN FALSE ELSE NameDrift(e.doc, e.structs),
+              dupnames |-> DuplicateNames(e.structs)])
 =============================================================================
